@@ -662,9 +662,9 @@ def gssvx_case(rng, prec, quick, kind='mixed', nmax=None):
     elif kind != 'svd' and rng.random() < 0.12:
         # element growth: the unrefined solve is far from backward stable, refinement has to do the work; several right-hand
         # sides of very different size (zero / tiny columns next to ordinary ones)
-        c['fam'] = 'wilk'; c['n'] = rng.choice([8, 12, 16, 20, 24] if prec in 'dz' else [6, 8, 10, 12]); c['wtheta'] = rng.choice([1.0, 0.9, 0.7])
+        c['fam'] = 'wilk'; c['n'] = rng.choice([8, 12, 16, 20, 24, 32, 40] if prec in 'dz' else [6, 8, 10, 12, 16]); c['wtheta'] = rng.choice([1.0, 0.9, 0.7])
         for k2 in ('cond', 'svmode', 'dens', 'bs', 'ncpl', 'rscale', 'cscale', 'dom', 'unitri', 'rhs'): c.pop(k2, None)
-        c['vals'] = 'generic'; c['ord'] = 0; c['u'] = rng.choice([1.0, 0.5, 0.1]); c['nrhs'] = rng.choice([2, 3, 4])
+        c['vals'] = 'generic'; c['ord'] = 0; c['u'] = rng.choice([1.0, 0.5, 0.1]); c['nrhs'] = rng.choice([2, 3, 4, 6, 8, 12])   # many columns: per-column state of the refinement loop (step budget, lstres) must restart
         c['colpat'] = rng.choice(['zg', 'gz', 'tg', 'gtg', 'zgzg', 'g', 'gg'])
     if rng.random() < 0.1 and c.get('nrhs', 0) >= 2 and 'colpat' not in c:
         c['colpat'] = rng.choice(['zg', 'gz', 'tg', 'gzg'])
